@@ -10,7 +10,11 @@
 #include <errno.h>
 #include <inttypes.h>
 
-static const char *KN[] = {"", "Alpha", "Beta", "alpha", "beta"};
+static const char *KN0[] = {"", "Alpha", "Beta", "alpha", "beta"};
+/* profiles 1, 2: the two lower-case names have EQUAL 32-bit murmur hashes (the table caches the hash and compares it first);
+ * same order and same case pairs as the first set */
+static const char *KN1[] = {"", "C178039", "C290156", "c178039", "c290156"};
+#define KN (profile ? KN1 : KN0)
 static int profile;
 static const int64_t INTVAL = -12345;
 /* string values; profile 1 uses bytes that need encoding in the save file */
